@@ -136,7 +136,9 @@ def _name(style, i):
 
 
 def _ident(style, c):
-    return NAMES.index(str(c)) if style == "str" else int(c)
+    if style == "str":
+        return NAMES.index(str(c)) if str(c) in NAMES else -1000   # not one of the class names at all
+    return int(c)
 
 
 def _arr(res):
@@ -356,15 +358,16 @@ def coq_term(case, res):
 
 
 # ---------------------------------------------------------------------------------------------- oracle
-def _close(v, w, exact, tol_abs=Fraction(1, 2 ** 49)):
+def _close(v, w, exact, scale=0):
+    """inexact stream: sums of up to N*N rounded terms: a few ulp of the largest partial sum (scale)"""
     if v is None or w is None:
         return v is None and w is None
     if exact:
         return v == w
-    return abs(v - w) <= max(tol_abs * max(abs(w), 1), 0)
+    return abs(v - w) <= Fraction(1, 2 ** 47) * max(abs(w), scale, 1)
 
 
-def _rate_ok(v, num, den, exact, direct):
+def _rate_ok(v, num, den, exact, direct, total=0):
     if den == 0:
         return v is None
     if v is None:
@@ -372,7 +375,10 @@ def _rate_ok(v, num, den, exact, direct):
     w = num / den
     if exact and direct:
         return v == Fraction(float(w))
-    return abs(v - w) <= (Fraction(1, 2 ** 52) if exact else Fraction(1, 2 ** 48))
+    if exact:
+        return abs(v - w) <= Fraction(1, 2 ** 52)
+    # numerator and denominator carry an absolute error of a few ulp of the population (TN is formed by subtraction)
+    return abs(v - w) <= Fraction(1, 2 ** 47) * (1 + Fraction(total) / den)
 
 
 DIRECT = {"accuracy", "tpr", "fnr", "tnr", "fpr", "topr", "tonr", "ppv", "npv"}
@@ -432,13 +438,13 @@ def _check_cm(case, col, tag, want_classes, want_mats, lead, fails, exact):
             rowsum = sum(M[j])
             colsum = sum(M[i][j] for i in range(N))
             where = f"class index {j} of matrix {[[str(x) for x in row] for row in M]}"
-            if not _close(a + b + c + d, total, exact):
+            if not _close(a + b + c + d, total, exact, total):
                 bad("ova-conservation", f"one-vs-all 2x2 sums to {a + b + c + d}, population is {total}; {where}")
             if a != M[j][j]:
                 bad("ova-tp", f"TP_j = {a}, diagonal entry is {M[j][j]}; {where}")
-            if not _close(a + b, rowsum, exact):
+            if not _close(a + b, rowsum, exact, total):
                 bad("ova-p", f"P_j = TP+FN = {a + b}, row sum is {rowsum}; {where}")
-            if not _close(a + c, colsum, exact):
+            if not _close(a + c, colsum, exact, total):
                 bad("ova-top", f"TOP_j = TP+FP = {a + c}, column sum is {colsum}; {where}")
             # per-class metrics are the metrics of the j-th 2x2 matrix
             ea, eb, ec = M[j][j], rowsum - M[j][j], colsum - M[j][j]
@@ -446,19 +452,23 @@ def _check_cm(case, col, tag, want_classes, want_mats, lead, fails, exact):
             wq = {"tp": ea, "fn": eb, "fp": ec, "tn": ed, "p": ea + eb, "n": ec + ed, "top": ea + ec, "ton": eb + ed}
             for name, w in wq.items():
                 v = F(col["per_class"][name]["vals"][k * N + j])
-                if not _close(v, w, exact):
+                if not _close(v, w, exact, total):
                     bad(f"per-class/{name}", f"{name}()[{j}] = {v}, want {w}; {where}")
             defs = _rates(ea, eb, ec, ed)
+            # float matrices: TN_j = total - (TP + FN + FP) is formed by subtraction; when it is exactly 0 the float
+            # result may be +-1 ulp of the total instead, which flips NaN-ness / the sign of the TN-based rates
+            pre = "float-tn-cancellation/" if (not exact and ed == 0 and d != 0) else ""
             for name in R_NAMES:
                 base = BASE.get(name, name)
                 num, den = defs[base]
                 v = F(col["per_class"][name]["vals"][k * N + j])
-                if not _rate_ok(v, num, den, exact, base in DIRECT):
-                    bad(f"per-class/{name}", f"{name}()[{j}] = {None if v is None else float(v)!r}, want {num}/{den}; {where}")
+                if not _rate_ok(v, num, den, exact, base in DIRECT, total):
+                    bad(f"{pre}per-class/{name}", f"{name}()[{j}] = {None if v is None else float(v)!r}, want {num}/{den} "
+                        f"(one-vs-all TN_j = {float(d)!r}, exactly {ed}); {where}")
         acc = F(col["accuracy"]["vals"][k])
-        if not _rate_ok(acc, trace, total, exact, True):
+        if not _rate_ok(acc, trace, total, exact, True, total):
             bad("accuracy", f"accuracy() = {None if acc is None else float(acc)!r}, trace/population = {trace}/{total}")
-        if not _close(F(col["pop"]["vals"][k]), total, exact):
+        if not _close(F(col["pop"]["vals"][k]), total, exact, total):
             bad("pop", f"pop() = {col['pop']['vals'][k]}, want {total}")
     # ---- as_dict agrees with the array form (same numbers, NaN where NaN)
     nm = len(mats)
@@ -490,6 +500,22 @@ def _check_equivariance(col, colp, sigma, lead, fails, exact):
                     fails.append(("C05/reorder", f"reordered matrix [{a}][{b}] = {P[k][a][b]}, original [{sigma[a]}][{sigma[b]}] = "
                                   f"{M[k][sigma[a]][sigma[b]]} (class order {col['classes']} -> {colp['classes']})"))
                     return
+    ova, ovap = [F(x) for x in col["ova"]["vals"]], [F(x) for x in colp["ova"]["vals"]]
+
+    def cancels(k, a):
+        """exact TN of the class is 0 but one of the two float computations of it is not"""
+        j = sigma[a]
+        tn_exact = sum(sum(row) for row in M[k]) - sum(M[k][j]) - sum(M[k][i][j] for i in range(N)) + M[k][j][j]
+        return (not exact) and tn_exact == 0 and (ova[(k * N + j) * 4 + 3] != 0 or ovap[(k * N + a) * 4 + 3] != 0)
+
+    def cond(k, j):
+        """population / smallest non-zero margin of the class: how much an absolute error of an ulp of the population
+        is amplified in its rates"""
+        tot = sum(sum(row) for row in M[k])
+        rs, cs = sum(M[k][j]), sum(M[k][i][j] for i in range(N))
+        dens = [x for x in (rs, tot - rs, cs, tot - cs) if x > 0]
+        return 1 + (tot / min(dens) if dens else 0)
+
     for name in Q_NAMES + R_NAMES + CI_NAMES:
         w = 2 if name.endswith("_ci") else 1
         v, vp = col["per_class"][name]["vals"], colp["per_class"][name]["vals"]
@@ -500,11 +526,14 @@ def _check_equivariance(col, colp, sigma, lead, fails, exact):
                 for t in range(w):
                     x, y = F(vp[(k * N + a) * w + t]), F(v[(k * N + sigma[a]) * w + t])
                     ok = (x is None and y is None) or (x is not None and y is not None and
-                                                       (x == y if exact else abs(x - y) <= Fraction(1, 2 ** 44) * max(1, abs(y))))
+                                                       (x == y if exact else abs(x - y) <= Fraction(1, 2 ** 44) * max(1, abs(y)) * cond(k, sigma[a])))
                     if not ok:
-                        fails.append((f"C05/equivariance/{name}", f"{name}() of the class-permuted matrix at position {a} is {vp[(k * N + a) * w + t]}, "
-                                      f"the original at position {sigma[a]} is {v[(k * N + sigma[a]) * w + t]} (sigma = {sigma}, "
-                                      f"matrix {[[str(q) for q in row] for row in M[k]]})"))
+                        pre = "float-tn-cancellation/" if cancels(k, a) else ""
+                        fails.append((f"C05/{pre}equivariance/{name}", f"{name}() of the class-permuted matrix at position {a} is "
+                                      f"{fl(vp[(k * N + a) * w + t])!r}, the original at position {sigma[a]} is "
+                                      f"{fl(v[(k * N + sigma[a]) * w + t])!r} (sigma = {sigma}, one-vs-all TN = "
+                                      f"{float(ovap[(k * N + a) * 4 + 3])!r} resp. {float(ova[(k * N + sigma[a]) * 4 + 3])!r}, "
+                                      f"matrix {[[float(q) for q in row] for row in M[k]]})"))
                         return
     for name in ("accuracy", "pop"):
         for k in range(nm):
